@@ -23,7 +23,7 @@ theorem ack_only_if_all_good (c : Cfg) (rds : List Rd) (tr : List Sys)
       ∧ pre.getLast? = some (.wait (.exited 0))
       ∧ (smtpData c rds tr).q.desync = false
       ∧ finalReply (smtpData c rds tr) = some 250 :=
-  Data.ack_only_if c rds tr h
+  Data.Ack.ack_only_if c rds tr h
 
 /-- **all good ⇒ ack**, for a message that is acceptable as such (`hacc`: some oracle leads to its
 acknowledgement): under *any* oracle whose answers contain no fault for the writes issued, the
@@ -33,7 +33,7 @@ theorem ack_if_all_good (c : Cfg) (rds : List Rd) (tr0 tr : List Sys)
     (hs : (smtpData c rds tr).q.desync = false)
     (hg : Spec.ackExpected tr (smtpData c rds tr).q.wlog.reverse = 250) :
     (smtpData c rds tr).accepted = true :=
-  Data.ack_if c rds tr0 tr hacc hs hg
+  Data.Ack.ack_if c rds tr0 tr hacc hs hg
 
 /-- **exit_status_table.** 250 exactly for "exited 0"; 554 exactly for "exited e" with
 `Gen.queuePermLo ≤ e ≤ Gen.queuePermHi` (11..40, extracted); 451 for every other exit code, for a
@@ -42,7 +42,7 @@ theorem exit_status_table (w : WaitR) :
     (resultCode w = 250 ↔ w = .exited 0)
     ∧ (resultCode w = 554 ↔ ∃ e, w = .exited e ∧ Gen.queuePermLo ≤ e ∧ e ≤ Gen.queuePermHi)
     ∧ (resultCode w = 250 ∨ resultCode w = 554 ∨ resultCode w = 451) :=
-  Data.resultCode_table w
+  Data.Ack.resultCode_table w
 
 set_option maxRecDepth 8192 in
 /-- the table over the 256 exit statuses, by evaluation -/
@@ -57,7 +57,7 @@ DATA), the client sees a 4xx or 5xx reply as the last reply. -/
 theorem not_acknowledged_is_error_reply (c : Cfg) (rds : List Rd) (tr : List Sys)
     (hd : (smtpData c rds tr).died = false) (hn : (smtpData c rds tr).accepted = false) :
     ∃ code, finalReply (smtpData c rds tr) = some code ∧ 400 ≤ code ∧ code < 600 :=
-  Data.not_accepted_reply c rds tr hd hn
+  Data.Ack.not_accepted_reply c rds tr hd hn
 
 /-- **failed_tx_discarded.** After every outcome of smtp_data() that got past "no valid
 recipients" — acknowledged or not — sender and recipients are gone, and neither queue descriptor
@@ -68,13 +68,13 @@ theorem failed_tx_discarded (c : Cfg) (rds : List Rd) (tr : List Sys) (s : Sessi
       ∧ (smtpData c rds tr).q.fdData = false ∧ (smtpData c rds tr).q.fdHdr = false
       ∧ (funcRes (smtpData c rds tr) s).s.mailfrom = [] ∧ (funcRes (smtpData c rds tr) s).s.rcpts = []
       ∧ (funcRes (smtpData c rds tr) s).s.goodrcpt = 0 ∧ (funcRes (smtpData c rds tr) s).s.rcptcount = 0 :=
-  Data.tx_discarded c rds tr s hg hd
+  Data.Ack.tx_discarded c rds tr s hg hd
 
 /-- **No pipe descriptor is left open** (when the oracle matches the calls). -/
 theorem queue_descriptors_closed (c : Cfg) (rds : List Rd) (tr : List Sys)
     (hs : (smtpData c rds tr).q.desync = false) (hd : (smtpData c rds tr).died = false) :
     (smtpData c rds tr).q.openFds = 0 :=
-  Data.no_fd_left c rds tr hs hd
+  Data.Ack.no_fd_left c rds tr hs hd
 
 /-- **next_tx_clean.** Two sessions that agree on what belongs to the connection (ESMTP, TLS,
 authentication, relay decision) are, after *any* two failed DATA transactions and a following RSET,
@@ -88,7 +88,7 @@ theorem next_tx_clean (env : Session.Env) (c1 c2 : Cfg) (s1 s2 : Session.Sess) (
     (v : Session.Verdicts) (ins : List Session.Input) :
     Session.run env (Data.step c1 s1 rds1 tr1).2.1 (.line [82, 83, 69, 84] v :: ins)
       = Session.run env (Data.step c2 s2 rds2 tr2).2.1 (.line [82, 83, 69, 84] v :: ins) :=
-  Data.next_tx_same env c1 c2 s1 s2 rds1 rds2 tr1 tr2 hconn hst1 hst2 hg1 hg2 hd1 hd2 v ins
+  Data.Ack.next_tx_same env c1 c2 s1 s2 rds1 rds2 tr1 tr2 hconn hst1 hst2 hg1 hg2 hd1 hd2 v ins
 
 /-- **reply_codes_tied.** The reply codes the model uses are the ones in the source text. -/
 theorem reply_codes_tied :
